@@ -266,7 +266,7 @@ class Ctx:
         return code
 
 
-GEN_FILES = ["GenTables", "GenArches", "GenNames", "GenStubs", "GenConsts", "GenSkeletons"]
+GEN_FILES = ["GenTables", "GenArches", "GenNames", "GenStubs", "GenConsts", "GenSkeletons", "GenCodegen"]
 
 TRUSTED_BASE = [
     "Coq 8.16.1 kernel (coqc; vm_compute used for reflection, no native_compute); coqchk in the thorough tier",
